@@ -78,6 +78,7 @@ def doCreate (s : St) (verb ty chain cb cv sb sv rev h : String) (extra : List S
     match m with
     | some m =>
       let o := if verb == "create" then createClientO s.st.x chain cb (cv == "1") sb (rev, h) m
+               else if verb == "upgrade" then upgradeClientO s.st.x chain cb (cv == "1") sb (rev, h) m
                else toggleClientO s.st.x chain cb (cv == "1") sb (rev, h) m
       match o with
       | .ok x => ({ s with st := { s.st with x := x } }, "ok")
@@ -118,6 +119,7 @@ def step (s : St) (line : String) : St × String :=
         | _ => bad
   | "create" :: ty :: chain :: cb :: cv :: sb :: sv :: rev :: h :: extra => doCreate s "create" ty chain cb cv sb sv rev h extra
   | "toggle" :: ty :: chain :: cb :: cv :: sb :: sv :: rev :: h :: extra => doCreate s "toggle" ty chain cb cv sb sv rev h extra
+  | "upgrade" :: ty :: chain :: cb :: cv :: sb :: sv :: rev :: h :: extra => doCreate s "upgrade" ty chain cb cv sb sv rev h extra
   | ["client", chain, b, v] =>
     match unhex chain, unhex b with
     | some chain, some b => withX { s with valid := (b, v == "1") :: s.valid } (setClientState · chain b)
